@@ -10,13 +10,58 @@ DEPS = []
 DESIGN_REF = "DESIGN.md section 5, C13"
 DRIVE_TIMEOUT = 3000
 WIDEN = False
-TECHNIQUE = "placeholder"
-RULE = "placeholder"
-TRUSTED = ["placeholder"]
-ASSUMPTIONS = ["placeholder"]
-LEVEL_TEXT = "placeholder"
-LEVEL_NOTE = "placeholder"
+TECHNIQUE = ("Coq: NextPackage as the SET of its possible results (theorems over every queue content / arrival list), the send loop with its context checks, and an "
+             "interleaving system of reader goroutine, closing goroutine, peer answer and logout timeout with Go's RWMutex (pending writer blocks readers) and bounded queues: "
+             "lock discipline as an invariant of EVERY step, progress + a strictly decreasing measure => Close returns in every schedule under explicit hypotheses; the "
+             "cases the full statement fails on are refuted by stuck-state witnesses (vm_compute) and listed as known findings; "
+             "+ scripted schedules on the real Conn/Channel with watchdogs, the model predicting every observation")
+RULE = ("cap = ChannelPackageQueueSize = 4; kind = channel 0 / a logical channel (real setup handshake); cancellation modes: own ctx, Conn's ctx, parent of the Conn's ctx, expired deadline. "
+        "fn 1: 0..cap+3 packages fed (reader parked on the full queue above cap), context cancelled BEFORE the calls, nfed+2 NextPackage(wait) calls, each in a settled state: 64 cases. "
+        "fn 2: NextPackage started on an empty queue, then cancellation and 0/1/3/cap+2 arriving packets race (order cancel-feed / feed-cancel / concurrent), wait true/false, then "
+        "further calls: the recorded results are judged (96 quick, 1920 thorough). fn 3: NextPackageUntil (nil callback / always continue / stop at 2nd) with 0..cap queued, "
+        "with and without a final DONE: 162 cases. fn 4: SendPackage / QueuePackage+SendRemainingPackets / SendRemainingPackets of a queued partial packet with a cancelled "
+        "context, 1..3 packets, and cancellation WHILE transport write 0/1/2 of 4 is held back by the transport: 120 cases; output = results + writes after cancellation. "
+        "fn 5: Close (channel / via Conn.Close) with 0/1/cap packages queued, then every API call (NextPackage x2, NextPackageUntil x2, Queue/SendRemaining/SendPackage, Close, "
+        "Reset, Logout, Close), transport writes afterwards, 0/3 late packets for the closed channel. fn 6: response abandoned after 0/1/3 of 0..cap+3 packages, then Close; "
+        "peer answers the logout at once / after 300 ms / (thorough) never - bounded by the documented minute + 15 s. fn 8: the same on channel 0 above cap+1 undelivered (outcome "
+        "schedule dependent, recorded in the input). fn 9: Close / Conn.Close while another goroutine waits in NextPackage with a live context, and with the context cancelled "
+        "50 ms later. fn 7: Conn.Close with 0/1/2/5 channels with 0..cap packages queued, healthy transport / failing 1, 3, 9, 10 times / failing for good; output: returned, "
+        "every channel reports closed, transport closed, reader goroutine returned, goroutine count back to the count before the connection was made. "
+        "Watchdogs: a call that must return gets 4 s, the known blocking scenarios are observed for 3 s; only booleans reach the case file. Distinct by (fn, input).")
+TRUSTED = ["Coq 8.16.1 kernel + vm_compute (no native_compute)",
+           "hand-written model coq/theories/C13/Model.v of NextPackage / NextPackageUntil / sendPackets / WritePacket / Close / Conn.Close / Conn.ReadFrom (tied by this correspondence: "
+           "every scenario's observations are predicted by the model)",
+           "harness/cmd/c12 (in-memory transport with held writes and scripted failures, peer answering setup and logout, settle detection by byte accounting, watchdogs), "
+           "tds/verif_hooks.go (VerifNewConn, VerifCancel, VerifQueueLens, VerifErrChLen, VerifNextErr, VerifSetPacketSize), ocaml/driver.ml, extraction with ExtrOcamlBasic only"]
+ASSUMPTIONS = ["sync.RWMutex as Go implements it: a pending Lock blocks new RLocks, Lock is granted when no reader is left; buffered channels are FIFOs, a send on a full one blocks; "
+               "select picks any ready case (the result SET contains every ready case)",
+               "real time is not in the model: 'promptly' / 'bounded time' are observed as 'returned within 4 s' (blocking scenarios: 'not within 3 s'); the logout's one-minute context "
+               "is a move that is always possible (LLogoutTimeout); goroutine leaks are observed through the reader goroutine's return and runtime.NumGoroutine",
+               "the system has ONE closing goroutine and one channel; Conn.Close over several channels is their sequential composition (observed with up to 5 channels); two "
+               "concurrent Close calls on one channel are not modelled (the 'closed by a concurrent call' branch is in the model, unreachable with one closer)",
+               "a Read that fails with io.EOF together with a complete packet (CLOSE packets) is not modelled: transport reads yield a packet or a non-EOF error",
+               "with errors queued on the connection or the channel NextPackage may return such an error instead of the context's error (select): C13_cancel assumes none queued, "
+               "C13_cancel_never_blocks holds regardless; with wait=false ErrNoPackageReady is a possible answer also under a cancelled context (the spec accepts it)",
+               "known finding close-blocks-on-full-rx-queue: demonstrated deterministically on logical channels (id > 0); on channel 0 the logout first takes a package and wakes the "
+               "parked reader, after which Lock() races with the reader parking again: the outcome is schedule dependent and recorded in the input (fn 8) - a return is judged OK, "
+               "a hang is matched by the known finding",
+               "known finding close-waits-for-consumer: deterministic for a logical channel and for Conn.Close; on channel 0 (thorough tier) the peer never answers so that the "
+               "logout's own wait (up to the documented minute) does not race with the consumer for the answer",
+               "known finding reader-parked-on-full-conn-errch: with a channel 0 open its logout takes one error out of the queue and the woken reader may see the cancelled "
+               "context first (schedule dependent): the scenarios close channel 0 beforehand or have no channel"]
+LEVEL_TEXT = ("Machine-checked over every queue content and every schedule of the modelled steps: C13_cancel_never_blocks / C13_cancel - with a done context NextPackage has no blocking "
+              "result and (no error queued) every result is the first queued / first arriving package or the context's error; C13_cancel_until_callback / _drain - NextPackageUntil ends "
+              "with a shown package, the response end or the context's error; C13_send_cancelled / C13_send_prefix - a context done at the start: no packet written; in general exactly the "
+              "packets in front of which the contexts were live; C13_after_close - every receive / send / Close call reports closed, and under every schedule the channel stays closed and its "
+              "queue only loses packages; C13_conn_close + C13_reader_guard - after Conn.Close returned: channel closed and unregistered, context done, transport closed, reader's loop guard "
+              "false; C13_reader_ends_partial (error queue has room) vs C13_reader_ends_refuted (full queue: stuck for ever); C13_close_terminates_partial - no goroutine outside holds the read "
+              "lock for good and the queue has room for what may still come => in every reachable state somebody can move until Close returned, and every run has at most measure(init) moves; "
+              "the full statement is refuted by C13_close_terminates_refuted (reader parked on a full queue) and C13_close_waits_for_consumer_refuted (consumer parked in NextPackage), both known "
+              "findings; C13_close_after_consumer_cancel. PARTIAL: real time, goroutine leaks and data races are observed with watchdogs / goroutine counts, not proved.")
+LEVEL_NOTE = ("Level: proof over all schedules of the modelled steps + every harness observation predicted by the model; three known findings (KNOWN-FINDING lines) reproduced by "
+              "dedicated scenarios and exhibited by the model as refuted witnesses. Trusted: Coq kernel, the hand-written model, harness + verif hooks, extraction + OCaml driver. No axioms.")
 
 
 def nontrivial(c):
-    return True
+    # every scenario exercises the mechanism except the degenerate "nothing queued, nothing arrives, no channel" ones
+    return not (c[0] == "7" and c[1].startswith("(0 ")) or "reader-parked" in c[3]
